@@ -68,7 +68,7 @@ def check(case: Dict[str, Any]) -> CaseInfo:
     nontrivial = False
     with scratch_dir() as d:
         files = write_case(case, d)
-        ta = load_analysis(files, d, mp=case.get("mp", False))
+        ta = load_analysis(files, d, mp=case.get("mp", False), prelude=case.get("prelude"))
         min_ts = int(ta.t.min_ts)
         req = p["ranks"]
         want_ranks = req if req else [0]
